@@ -191,3 +191,26 @@ pub fn hdr_bytes_slice_u16() {
     assert!(same, "[C16/slice.header] a slice reference is written with the header of the corresponding vector");
     core::mem::forget(r);
 }
+
+/// a type whose `type_name` is longer than 256 bytes: the name is written in full
+/// (added after seed C06-R9: the name cut to a fixed maximum by the writer only - the
+/// reader never compares it, so round trips survive)
+pub type LongName = G2<G2<G2<u8, u8>, G2<u8, u8>>, G2<G2<u8, u8>, G2<u8, u8>>>;
+// @h hdr_long_name props=C06 tier=quick kind=complete vars="v:G2<G2<G2<u8,u8>,G2<u8,u8>>,G2<G2<u8,u8>,G2<u8,u8>>> (type name of 261 bytes), all field values" fns="ser/mod.rs:write_header"
+#[kani::proof]
+#[kani::unwind(40)]
+pub fn hdr_long_name() {
+    let v = <LongName as Sym>::sym(0);
+    let mut sink = ArrSink::<512>::new();
+    let r = v.serialize(&mut sink);
+    assert!(r.is_ok(), "[C01/ser.ok] serialization into an infallible sink succeeds");
+    let name = core::any::type_name::<LongName>();
+    assert!(name.len() > 256, "[harness] the sample type has a long name");
+    let n = le64(&sink.buf[29..37]) as usize;
+    assert!(n == name.len(), "[C06/header.name.len] the type name is written in full, length-prefixed");
+    let i = sym_index(name.len());
+    assert!(sink.buf[37 + i] == name.as_bytes()[i], "[C06/header.name.bytes] the bytes of the type name follow its length");
+    assert!(sink.len == 37 + name.len() + 15, "[C06/header.then.payload] the payload follows the name");
+    core::mem::forget(r);
+    kani::cover!(true, "[cover] end of harness reached");
+}
